@@ -408,7 +408,13 @@ class TsCountMethods:
 
 
 def ts_is_code_line(line):
-    """docs/srp-linter.md (How it works, 3): lines of code exclude blank lines and comments."""
+    """docs/srp-linter.md (How it works, 3): lines of code exclude blank lines and comments (truthy iff the stripped line
+    is non-empty and does not start a `//` comment; same expression shape as count_loc so that both denote one counting
+    function; the boolean reading is lemma ts-code-lines-are-nonblank-noncomment-lines)."""
+    return line.strip() and not line.strip().startswith("//")
+
+
+def ts_documented_code_line(line):
     return line.strip() != "" and not line.strip().startswith("//")
 
 
@@ -420,9 +426,13 @@ def ts_code_line_count(node, source):
     return sum(1 for line in ts_node_lines(node, source) if ts_is_code_line(line))
 
 
-def ts_line_span(node):
-    """What the code counts (known finding C16-ts-loc-span): every line from the header to the closing brace."""
-    return node.end_point[0] - node.start_point[0] + 1
+@lemma(props=["C16"], types=dict(lines=SeqOf(Str)), name="ts-code-lines-are-nonblank-noncomment-lines")
+def ts_code_line_lemma(lines):
+    """The counting predicate of the TypeScript count_loc is the documented one (non-blank and not a // comment line)."""
+    if len(lines) == 0:
+        return sum(1 for line in lines if ts_is_code_line(line)) == sum(1 for line in lines if ts_documented_code_line(line))
+    ih(ts_code_line_lemma, lines[1:])
+    return sum(1 for line in lines if ts_is_code_line(line)) == sum(1 for line in lines if ts_documented_code_line(line))
 
 
 @contract(TM + "count_loc", props=["C16"], types=dict(class_node=TSNode, source=Str), returns=Int)
@@ -430,19 +440,9 @@ class TsCountLoc:
     def requires(class_node, source):
         return class_node is not None
 
-    def ensures_code_lines(class_node, source, result):
-        # documented metric (expected to fail: known finding C16-ts-loc-span)
-        return result == ts_code_line_count(class_node, source)
-
-    def witness_code_lines():
-        # the class of the native reproduction (known_findings.json, C16-ts-loc-span): 3 code lines, span 5
-        return {"class_node": {"__node__": "n1", "type": "class_declaration", "start_point": [0, 0], "end_point": [4, 1],
-                               "children": [], "text": None},
-                "source": "class Foo {\n  a(): void {}\n\n  // comment\n}"}
-
-    def ensures_line_span(class_node, source, result):
-        # finding-adjusted: the raw line span, blank and comment lines included
-        return result == ts_line_span(class_node)
+    def value(class_node, source):
+        # documented metric: the non-blank, non-comment lines of the class (fixed: C16-ts-loc-span)
+        return ts_code_line_count(class_node, source)
 
 
 TsCalcT = Rec("TypeScriptMetricsCalculator", cls=TM + "TypeScriptMetricsCalculator")
@@ -464,7 +464,7 @@ class TsCalcCountLoc:
         return class_node is not None
 
     def value(self, class_node, source):
-        return ts_line_span(class_node)
+        return ts_code_line_count(class_node, source)
 
 
 # ====================================================================================== typescript_analyzer.py
@@ -487,16 +487,16 @@ class TsFindAllClasses:
         return implies(root_node is not None, result == ts_collect_type(root_node, "class_declaration"))
 
 
-def ts_metrics_named(class_node, name, config):
-    return mk(ClassMetrics, class_name=name, method_count=ts_method_count(class_node), loc=ts_line_span(class_node),
+def ts_metrics_named(class_node, name, source, config):
+    return mk(ClassMetrics, class_name=name, method_count=ts_method_count(class_node), loc=ts_code_line_count(class_node, source),
               has_keyword=has_keyword(name, config.keywords), line=class_node.start_point[0] + 1,
               column=class_node.start_point[1])
 
 
-def ts_metrics(class_node, config):
+def ts_metrics(class_node, source, config):
     """Metrics record of one TypeScript class (two explicit cases so that the keyword test captures a plain name)."""
-    return ts_metrics_named(class_node, "UnnamedClass", config) if ts_identifier_name(class_node) == "anonymous" \
-        else ts_metrics_named(class_node, ts_identifier_name(class_node), config)
+    return ts_metrics_named(class_node, "UnnamedClass", source, config) if ts_identifier_name(class_node) == "anonymous" \
+        else ts_metrics_named(class_node, ts_identifier_name(class_node), source, config)
 
 
 @contract(TA + "TypeScriptSRPAnalyzer.analyze_class", props=["C16"], no_selftest=True,
@@ -506,13 +506,13 @@ class TsAnalyzeClass:
         return class_node is not None
 
     def value(self, class_node, source, config):
-        return ts_metrics(class_node, config)
+        return ts_metrics(class_node, source, config)
 
     def ensures_method_count(self, class_node, source, config, result):
         return result["method_count"] == ts_method_count(class_node)
 
     def ensures_loc(self, class_node, source, config, result):
-        return result["loc"] == ts_line_span(class_node)
+        return result["loc"] == ts_code_line_count(class_node, source)
 
     def ensures_keyword(self, class_node, source, config, result):
         return (result["has_keyword"] == has_keyword("UnnamedClass", config.keywords)) \
@@ -797,7 +797,7 @@ class AnalyzeTypescript:
     """One metrics record per class_declaration of the file, in document order (nothing without a parser)."""
     def ensures_one_record_per_class(self, context, config, result):
         return result == ([] if ts_root(content_of(context)) is None else
-                          [ts_metrics(class_node, config) for class_node in
+                          [ts_metrics(class_node, content_of(context), config) for class_node in
                            ts_collect_type(ts_root(content_of(context)), "class_declaration")])
 
 
@@ -1070,7 +1070,7 @@ class SrpCheckPython:
 
 def ts_reported(context, config):
     return reported([] if ts_root(content_of(context)) is None else
-                    [ts_metrics(class_node, config) for class_node in
+                    [ts_metrics(class_node, content_of(context), config) for class_node in
                      ts_collect_type(ts_root(content_of(context)), "class_declaration")], config, context)
 
 
